@@ -95,6 +95,18 @@ def gen_script(rng: random.Random, prog):
         for _ in range(rng.randint(2, 8)):
             r = rng.random()
             cmds.append(["G"] if r < 0.7 else ["S", rng.choice([1, 2, 3])] if r < 0.9 else _bm(rng, prog))
+    elif shape < 0.12:
+        # breakpoints registered by on_event hooks while the loop is running: nothing (or little) is registered
+        # when run() / resume() / step() enters the loop, the hook adds the breakpoint after the k-th event
+        if rng.random() < 0.25:
+            cmds.append(_bp(rng, prog))
+        for _ in range(rng.randint(1, 3)):
+            cmds.append(["HB", rng.choice([1, 1, 2, 3, 4, 6])] + _bp(rng, prog))
+        if rng.random() < 0.3:
+            cmds += [["P"], ["G"], ["S", rng.choice([1, 2])]]
+        for _ in range(rng.randint(2, 6)):
+            r = rng.random()
+            cmds.append(["G"] if r < 0.7 else ["S", rng.choice([1, 2, 3, 5])] if r < 0.9 else ["CLR"])
     elif shape < 0.2:
         # several breakpoints armed at once, then run / resume / step until they have all had their chance
         if rng.random() < 0.4:
@@ -143,8 +155,10 @@ def gen_script(rng: random.Random, prog):
                 cmds.append(_bp(rng, prog))
             elif r < 0.83:
                 cmds.append(["CLR"])
-            elif r < 0.9:
+            elif r < 0.87:
                 cmds.append(["HP", rng.randint(1, 10)])
+            elif r < 0.9:
+                cmds.append(["HB", rng.randint(1, 8)] + _bp(rng, prog))
             elif r < 0.95:
                 cmds.append(_sch(rng, prog))
             else:
@@ -203,6 +217,8 @@ class C04(core.Property):
         "HappyModel.C04.metric_zero_is_a_value",
         "HappyModel.C04.metric_missing_never_fires",
         "HappyModel.C04.metric_breakpoint_first",
+        "HappyModel.C04.breakpoint_first_registered",
+        "HappyModel.C04.hook_added_breakpoint_first",
     ]
     partial_theorems = {}
     quick_cases = 900
@@ -211,7 +227,8 @@ class C04(core.Property):
     rule = ("a C01 or C02 program × an observation mode: plain / InMemoryTraceRecorder / enable_event_tracing() / control attached and "
             "driven by a generated script of pause, run, step(n), resume, time / count / event-type / metric (entity attribute level, "
             "inflight, _crashed or a missing one, all six operators, thresholds at and around 0 so that conditions first hold at a falsy "
-            "value) / condition (events_processed == n) breakpoints (one-shot or not, "
+            "value) / condition (events_processed == n) breakpoints (one-shot or not, registered from the script or by an on_event "
+            "hook while the loop is running, "
             "several armed at once), clear, pausing on_event hook, reset() between rounds (after pause / step / breakpoint rounds, "
             "with and without stateless entities), sim.schedule() of an event from outside before a run and while it is paused "
             "(timestamps on the program's tie grid or at the current clock) / reset()+run(). After every control command get_state() "
@@ -223,7 +240,8 @@ class C04(core.Property):
     trusted_base = [
         "hv/engine_harness.py scripted entities",
         "control scripts never call the API in a state where it raises (step before run, resume when not paused); run() is not called again on a completed run; schedule() from outside only before a run or while paused",
-        "reset mode: pre-run events carry no completion hooks and are not pre-cancelled (reset() replays time/type/target/daemon/metadata only)",
+        "reset mode: pre-run events carry no completion hooks and are not pre-cancelled (reset() replays time/type/target/daemon/metadata only; "
+        "the metadata — creation tag, hop count — is the one the event was scheduled with, whatever handlers stamped on the delivered event)",
         "programs that are reset do not wait on futures (a process parked by the abandoned run would make the code refuse its successor)",
         "end line after a run with no new summary (reset as last command) is read from Simulation._build_summary()",
     ]
@@ -297,6 +315,7 @@ class C04(core.Property):
             h.trace.clear()
             h.tagc = len(case["pre"])
             h.npid = 0
+            h.ndeliv = 0
             h.last_kind.clear()
             for e in h.ents:
                 e._crashed = False
@@ -324,6 +343,21 @@ class C04(core.Property):
 
         ctl.on_event(observe)
 
+        def make_bp(c):
+            op = c[0]
+            if op == "BT":
+                return TimeBreakpoint(time=h.Instant(c[1]), one_shot=bool(c[2]))
+            if op == "BC":
+                return EventCountBreakpoint(count=c[1], one_shot=bool(c[2]))
+            if op == "BK":
+                return EventTypeBreakpoint(event_type=f"k{c[1]}", one_shot=bool(c[2]))
+            if op == "BM":
+                thr = c[4] // 2 if c[4] % 4 == 0 else c[4] / 2      # ints and floats as thresholds
+                return MetricBreakpoint(entity_name=f"e{c[1]}", attribute=METRIC_ATTRS[c[2]], operator=c[3],
+                                        threshold=thr, one_shot=bool(c[5]))
+            return ConditionBreakpoint(fn=lambda ctx, n=c[1]: ctx.events_processed == n,
+                                       description=f"processed == {c[1]}", one_shot=bool(c[2]))
+
         def driver(sim):
             summary = None
             started = False
@@ -340,19 +374,12 @@ class C04(core.Property):
                 elif op == "S":
                     if started and ctl.is_running:
                         summary = ctl.step(c[1])
-                elif op == "BT":
-                    ctl.add_breakpoint(TimeBreakpoint(time=h.Instant(c[1]), one_shot=bool(c[2])))
-                elif op == "BC":
-                    ctl.add_breakpoint(EventCountBreakpoint(count=c[1], one_shot=bool(c[2])))
-                elif op == "BK":
-                    ctl.add_breakpoint(EventTypeBreakpoint(event_type=f"k{c[1]}", one_shot=bool(c[2])))
-                elif op == "BM":
-                    thr = c[4] // 2 if c[4] % 2 == 0 and c[4] % 4 == 0 else c[4] / 2      # ints and floats as thresholds
-                    ctl.add_breakpoint(MetricBreakpoint(entity_name=f"e{c[1]}", attribute=METRIC_ATTRS[c[2]], operator=c[3],
-                                                        threshold=thr, one_shot=bool(c[5])))
-                elif op == "BX":
-                    ctl.add_breakpoint(ConditionBreakpoint(fn=lambda ctx, n=c[1]: ctx.events_processed == n,
-                                                           description=f"processed == {c[1]}", one_shot=bool(c[2])))
+                elif op in ("BT", "BC", "BK", "BM", "BX"):
+                    ctl.add_breakpoint(make_bp(c))
+                elif op == "HB":
+                    # a hook that registers a breakpoint while the loop is running (no pause in between)
+                    ctl.on_event(lambda ev, k=c[1], bc=c[2:]: ctl.add_breakpoint(make_bp(bc))
+                                 if ctl.get_state().events_processed == k else None)
                 elif op == "CLR":
                     ctl.clear_breakpoints()
                 elif op == "HP":
